@@ -1199,7 +1199,7 @@ class Translator:
     def bind(self, target, v, env, node):
         """env after `target = v`, and the `let` line"""
         env = dict(env)
-        if isinstance(target, ast.Name):
+        if isinstance(target, ast.Name) and target.id not in self.places:
             decl = self.spec.get("locals", {}).get(target.id)
             if decl == "Fmt":
                 if v.typ == "Str" and isinstance(v.lit, str):
@@ -1530,6 +1530,23 @@ class Translator:
             return self.with_hoists(hs, env, frame, inner)
         if isinstance(c0, ast.Call) and self.key(c0.func) in self.state_calls:
             return self.state_call(c0, env, frame, lambda v, env1: self.block(rest, env1, frame))
+        mm = self.spec.get("mut_methods", {})
+        if (mm and isinstance(c0, ast.Call) and isinstance(c0.func, ast.Attribute) and isinstance(c0.func.value, ast.Name)
+                and c0.func.value.id in env and (env[c0.func.value.id].typ, c0.func.attr) in mm and not c0.keywords):
+            # a method that mutates the object a loop variable holds: the external returns the object afterwards
+            x = env[c0.func.value.id]
+            c = mm[(x.typ, c0.func.attr)]
+            if len(c0.args) != len(c["args"]):
+                self.bad(st, f"`.{c0.func.attr}` with {len(c0.args)} arguments, the spec knows {len(c['args'])}")
+            saved, self.hoists = self.hoists, []
+            args = [self.coerce(self.expr(a, env), t, st) for a, t in zip(c0.args, c["args"])]
+            hs, self.hoists = self.hoists, saved
+            if hs:
+                self.bad(st, "an argument of a mutating method that may raise")
+            env2 = dict(env)
+            n = lname(c0.func.value.id)
+            env2[c0.func.value.id] = V(n, x.typ)
+            return f"let {n} : {ty(x.typ)} := " + " ".join([c["lean"], x.term] + args) + "\n" + self.block(rest, env2, frame)
         if (isinstance(c0, ast.Call) and isinstance(c0.func, ast.Attribute) and c0.func.attr == "append" and len(c0.args) == 1
                 and not c0.keywords and isinstance(c0.func.value, ast.Name) and c0.func.value.id in env
                 and env[c0.func.value.id].typ.startswith("List ") and c0.func.value.id in self.spec.get("locals", {})):
@@ -1542,6 +1559,18 @@ class Translator:
                 env2, line = self.bind(c0.func.value, new, env, st)
                 return line + "\n" + self.block(rest, env2, frame)
             return self.with_hoists(hs, env, frame, inner)
+        if (isinstance(c0, ast.Call) and isinstance(c0.func, ast.Attribute) and c0.func.attr == "extend" and len(c0.args) == 1
+                and not c0.keywords and isinstance(c0.func.value, ast.Name) and c0.func.value.id in env
+                and env[c0.func.value.id].typ.startswith("List ") and c0.func.value.id in self.spec.get("locals", {})):
+            # a list local this function created: extend rebinds it
+            x = env[c0.func.value.id]
+            v, hs = self.eval(c0.args[0], env)
+
+            def inner_lext():
+                new = V(f"({x.term} ++ {self.coerce(v, x.typ, st)})", x.typ)
+                env2, line = self.bind(c0.func.value, new, env, st)
+                return line + "\n" + self.block(rest, env2, frame)
+            return self.with_hoists(hs, env, frame, inner_lext)
         if (isinstance(c0, ast.Call) and isinstance(c0.func, ast.Attribute) and c0.func.attr == "clear" and not c0.args and not c0.keywords
                 and self.key(c0.func.value) in self.places and self.places[self.key(c0.func.value)][2].startswith("List ")):
             env2, line = self.bind(c0.func.value, V("[]", "EmptyList"), env, st)
@@ -1979,7 +2008,32 @@ class Translator:
             return x.term, [(n, t, t == "Nat") for n, t in zip(ns, parts)], hs
         self.bad(st, "loop over anything but range(), enumerate(bytes), bytes or a list of the spec")
 
+    def obj_loop(self, st, rest, env, frame):
+        """spec `obj_lists` {list place: element type}: `for x in <list of objects>` whose body only tests `x`, calls mutating
+        methods of `x` (spec `mut_methods`: the external returns the object as it is afterwards) and may `return` —
+        `PyRt.forObjs`: the list with the visited objects as they are afterwards, and whether the body returned"""
+        pk = self.key(st.iter)
+        et = self.spec["obj_lists"][pk]
+        if not isinstance(st.target, ast.Name) or st.orelse:
+            self.bad(st, "a loop over an object list with a tuple target or an else")
+        nm = st.target.id
+        cur = self.read_place(pk, env, st)
+        env_b = dict(env)
+        env_b[nm] = V(lname(nm), et)
+        of = ObjLoopFrame(self, nm)
+        saved = self.raises
+        body = self.block(list(st.body), env_b, of)
+        if self.raises and not saved:
+            self.bad(st, "a loop over an object list whose body may raise")
+        o = self.fresh("py_o")
+        env2, line = self.bind(st.iter, V(f"{o}.1", self.places[pk][2]), env, st)
+        ret = self.s_Return(ast.copy_location(ast.Return(value=None), st), [], env2, frame)
+        return (f"let {o} := PyRt.forObjs {cur.term} (fun ({lname(nm)} : {ty(et)}) =>\n{ind(body, 4)})\n{line}\n"
+                f"if {o}.2 then (\n{ind(ret)})\nelse (\n{ind(self.block(rest, env2, frame))})")
+
     def s_For(self, st, rest, env, frame):
+        if self.key(st.iter) in self.spec.get("obj_lists", {}):
+            return self.obj_loop(st, rest, env, frame)
         if st.orelse:
             self.bad(st, "for … else")
         lst, bound, hs = self.loop_iter(st, env)
@@ -2244,6 +2298,23 @@ class JoinFrame(Frame):
             lines.append(f"let {n} : {ty(t)} := {proj}")
             env2[m] = V(n, t, nn)
         return "\n".join(lines), env2
+
+
+class ObjLoopFrame(Frame):
+    """the body of a loop over a list of objects (`Translator.obj_loop`): ends in (the object afterwards, returned?)"""
+    def __init__(self, tr, nm):
+        self.tr, self.nm = tr, nm
+
+    def fall(self, env): return f"({env[self.nm].term}, false)"
+
+    def ret(self, val, env, node):
+        if val.typ != "NoneType":
+            self.tr.bad(node, "`return <value>` inside a loop over an object list")
+        return f"({env[self.nm].term}, true)"
+
+    def raise_(self, e, env): self.tr.bad(None, "a loop over an object list whose body may raise")
+    def cont(self, env, node): return self.fall(env)
+    def brk(self, env, node): self.tr.bad(node, "break inside a loop over an object list")
 
 
 class RJoinFrame(JoinFrame):
@@ -2539,7 +2610,8 @@ def _translate(tr, func, spec, assume_raises):
         top = TopFrame(tr, fragment)
         text = tr.block(list(body), env, top)
         vt = tr.value_type
-        stn = f"{tr.name}.St" if tr.state is None else ty_arg(tr.state["type"])
+        stp = "".join(" " + t for t in spec.get("st_tparams", ()))
+        stn = (f"({tr.name}.St{stp})" if stp else f"{tr.name}.St") if tr.state is None else ty_arg(tr.state["type"])
         if stateful:
             plain = stn if vt == "Unit" else f"({ty_arg(vt)} × {stn})"
             rtype = ((f"Except PyRt.Err {plain}" if spec.get("raise_state") is False else f"PyRt.Res {stn} {ty_arg(vt)}")
@@ -2552,7 +2624,8 @@ def _translate(tr, func, spec, assume_raises):
         fields += [f"  {n} : {ty(t)}" for n, t in tr.outs]
         if tr.actions:
             fields.append(f"  acts : List {spec['action_type']}")
-        out.append(f"structure {tr.name}.St where\n" + "\n".join(fields) + "\n  deriving DecidableEq, Repr\n")
+        stb = "".join(f" ({t} : Type)" for t in spec.get("st_tparams", ()))
+        out.append(f"structure {tr.name}.St{stb} where\n" + "\n".join(fields) + "\n  deriving DecidableEq, Repr\n")
     # a written place whose initial value is never looked at is not a parameter
     import re
     for k, ln, typ in place_binders:
